@@ -5,5 +5,11 @@ MCEdges == {"eA", "eB"}
 MCParent == [e \in MCEdges |-> IF e = "eA" THEN "top" ELSE "eA"]
 \* per placement: two node points, one edge point, the tombstone
 MCIdents == {[e |-> x, k |-> y] : x \in MCEdges, y \in {"pt", "pt2", "ept", "tomb"}}
+MCFresh == {}
+\* role 2 adds a node C below A and a node D below C that do not exist at the start
+GenEdges == MCEdges \cup {"eC", "eD"}
+GenParent == [e \in GenEdges |-> CASE e = "eA" -> "top" [] e = "eB" -> "eA" [] e = "eC" -> "eA" [] OTHER -> "eC"]
+GenIdents == MCIdents \cup {[e |-> x, k |-> y] : x \in {"eC", "eD"}, y \in {"pt", "tomb"}}
+GenFresh == {"eC", "eD"}
 
 =============================================================================
